@@ -35,6 +35,7 @@
 //                index, subscriber table without K's entry), every other session's liveness, _parameters, _subscriptions, limits and flags
 //   detach       after K's connection ended (d / every cut): no node under K's directory, host node present iff another session uses it,
 //                no DataNode::GetSubscribers() table and no cached table of the pool mentions K, no client mirror still holds a K node
+//   marks        after every op: every node carries for every attached session as many marks as that session's subscriptions match it
 //   as-if-never  (at a departure, at every cut, and for every unprivileged session a PR_COMMAND_KICK removed) tree, subscriber tables, parameters of the others and every client's mirror equal those of a baseline run of the
 //                same history without session K (unprivileged K only)
 //   label q (ordered children as modelled by Refl/IsoOrd.v): k j code T{...; a node with an ordered index ends in [I0,I1,]} E{...}
@@ -149,7 +150,7 @@ struct ClientState
 // One execution of a history (possibly with the events of one session erased: the baseline of as-if-never)
 struct Run
 {
-   Run(int skipIdx) : skip(skipIdx), quietUsed(false), nScript(0)
+   Run(int skipIdx) : skip(skipIdx), quietUsed(false), foreignOnly(false), nScript(0)
    {
       Message & st = w.srv.GetCentralState();
       (void) st.AddString("priv0", "K*");   // PR_PRIVILEGE_KICK
@@ -162,6 +163,7 @@ struct Run
    W w;
    int skip;                          // script index of the erased session, or -1
    bool quietUsed;
+   bool foreignOnly;                  // label q: see ApplyToMirror
    int nScript;                       // sessions attached so far, in script numbering
    std::vector<int> widx;             // script index -> world index (-1: erased)
    std::vector<int> sidx;             // world index -> script index
@@ -412,18 +414,19 @@ struct Run
       return subs;
    }
 
-   void ApplyToMirror(ClientState & c, const Message & m, std::ostringstream & out)
+   // foreignOnly (label q): what a client is told about its OWN subtree is left out of M{} (a session that has used an ordered index gets
+   // its own nodes back from GETDATA / SUBSCRIBE -- StorageReflectSession::_indexingPresent --, which the model does not follow)
+   void ApplyToMirror(ClientState & c, const Message & m, std::ostringstream & out, const std::string & ownDir)
    {
-      out << "[R:";
+      std::ostringstream ro, so;
       const String * s;
+      bool firstr = true;
       for (int32 i=0; m.FindString(PR_NAME_REMOVED_DATAITEMS, i, &s).IsOK(); i++)
       {
          const std::string p = Canon(s->Cstr());
-         if (i) out << ",";
-         out << p;
+         if (!((foreignOnly)&&(Under(ownDir, p)))) {if (!firstr) ro << ","; firstr = false; ro << p;}
          c.mirror.erase(p);
       }
-      out << ";S:";
       bool first = true;
       for (MessageFieldNameIterator it = m.GetFieldNameIterator(B_MESSAGE_TYPE); it.HasData(); it++)
       {
@@ -431,14 +434,13 @@ struct Run
          MessageRef v;
          for (int32 i=0; m.FindMessage(it.GetFieldName(), i, v).IsOK(); i++)
          {
-            if (!first) out << ",";
-            first = false;
             const std::string pv = Payload(v());
-            out << p << "=" << pv;
+            if (!((foreignOnly)&&(Under(ownDir, p)))) {if (!first) so << ","; first = false; so << p << "=" << pv;}
             c.mirror[p] = pv;
          }
       }
-      out << "]";
+      if ((foreignOnly)&&(firstr)&&(first)) return;
+      out << "[R:" << ro.str() << ";S:" << so.str() << "]";
    }
 
    // consumes every client's inbox; M{..} L{..} of the sessions that are alive, in script order
@@ -457,7 +459,7 @@ struct Run
          {
             const Message * m = cl.inbox[mi]();
             if (m == NULL) continue;
-            if (m->what == PR_RESULT_DATAITEMS) ApplyToMirror(cs[wi], *m, m1);
+            if (m->what == PR_RESULT_DATAITEMS) ApplyToMirror(cs[wi], *m, m1, DirOf((int)si));
             else
             {
                if (!firstl) l1 << ",";
@@ -661,6 +663,32 @@ struct Run
    }
 
    // "" or what is left of the departed script session K
+   // independent of the model: every node carries, for every attached session, exactly as many subscription marks as that session's
+   // subscription paths match it (StorageReflectSession::NodeCreated / DoSubscribeRefCallback keep this up); a node without the marks
+   // of a session whose subscription matches it is a node whose updates and removal that session will never hear of
+   std::string MarksWrong()
+   {
+      DataNode * root = Root();
+      if (root == NULL) return "";
+      Collector col; WalkTree(*root, col);
+      for (size_t i=0; i<col.nodes.size(); i++)
+      {
+         DataNode & n = *col.nodes[i];
+         for (size_t si=0; si<widx.size(); si++) if ((Has((int)si))&&(w.alive(widx[si])))
+         {
+            HSession & s = w.session(widx[si]);
+            const uint32 expected = s._subscriptions.GetMatchCount(n, NULL, 0);
+            const uint32 actual   = n.GetSubscribers().GetWithDefault((uint32) RealIdOf((int)si), 0);
+            if (expected != actual)
+            {
+               String np; (void) n.GetNodePath(np);
+               return "node " + Canon(np()) + " carries " + itos((long)actual) + " mark(s) of client " + itos((long)si) + " whose subscriptions match it " + itos((long)expected) + " time(s)";
+            }
+         }
+      }
+      return "";
+   }
+
    std::string TraceOf(int K)
    {
       const std::string dir = DirOf(K);
@@ -821,6 +849,7 @@ static void RunCase(long k, const std::string & line)
    for (size_t i=0; i<raw.size(); i++) if (!raw[i].empty()) ops.push_back(raw[i]);
 
    Run * main = new Run(-1);
+   main->foreignOnly = treeOnly;
    for (size_t j=0; j<ops.size(); j++)
    {
       std::vector<std::string> f = Split(ops[j], ':');
@@ -938,10 +967,16 @@ static void RunCase(long k, const std::string & line)
       const std::string st = main->Exec(ops[j], &valid, NULL);
       if (treeOnly)
       {
-         const size_t tp = st.find(" T{");
-         printf("%ld %d %s%s%s\n", k, (int)j, code.c_str(), valid ? "" : "!", (tp == std::string::npos) ? "" : st.substr(tp).c_str());
+         // PR_RESULT_DATAITEMS received (M{}), tree and sessions; not L{}: it holds the PR_RESULT_INDEXUPDATED Messages
+         const size_t mp = st.find("M{"), lp = st.find(" L{"), tp = st.find(" T{");
+         const std::string ms = ((mp != std::string::npos)&&(lp != std::string::npos)&&(lp > mp)) ? (" " + st.substr(mp, lp-mp)) : std::string("");
+         printf("%ld %d %s%s%s%s\n", k, (int)j, code.c_str(), valid ? "" : "!", ms.c_str(), (tp == std::string::npos) ? "" : st.substr(tp).c_str());
       }
       else if (!quietCase) printf("%ld %d %s\n", k, (int)j, st.c_str());
+      {
+         const std::string mw = main->MarksWrong();
+         if (!mw.empty()) printf("%ld ORACLE FAIL marks op#%d %s\n", k, (int)j, mw.c_str());
+      }
       // sessions that a privileged kick of this op removed: as if they had never been there
       if (isCmd) for (size_t x=0; x<aliveBefore.size(); x++) if ((aliveBefore[x])&&((int)x != K)&&(!main->Alive((int)x))&&(!IsPrivHost(main->hosts[x])))
       {
